@@ -340,6 +340,8 @@ def rewrites(text):
 
     if not lines[0].lower().startswith('message:'):
         put('message-block', ['message: outp=x.o runtpe=x.r', ''] + lines)
+        put('message-block:mixed-case', ['Message: outp=x.o runtpe=x.r', ''] + lines)
+        put('message-block:upper', ['MESSAGE:  OUTP=X.O', '      RUNTPE=X.R', ''] + lines)
     for kind, starts, end in blocks:
         for s in starts:
             L = lines[s]
